@@ -11,8 +11,8 @@ MANIFEST = dict(
          "history and every schedule: an inductive invariant (exact bytes_in/bytes_out accounting; every file chunk "
          "readable: own descriptor, owned temp-file name, or application file; one owning chunk per temp file "
          "spanning the whole file) (c17_invariant, c17_length_exact); every operation that does not report an error "
-         "acts on the queued bytes like a byte-string FIFO, at every point of a history (c17_refines_fifo, "
-         "c17_history_refines, c17_steal_fifo, c17_read_data); read_data/peek_data of queued bytes succeed and hand "
+         "acts on the queued bytes like a byte-string FIFO, at every point of a history and as a fold over whole "
+         "histories (c17_refines_fifo, c17_history_refines, c17_run_refines, c17_steal_fifo, c17_read_data); read_data/peek_data of queued bytes succeed and hand "
          "out exactly the head of the queue, i.e. every queued byte comes out (c17_read_progress, c17_peek_progress); "
          "a spill that reports an error has duplicated/reordered/modified nothing, removed from the source exactly "
          "what it moved and left a prefix in the destination (c17_fault_safe) - it MAY drop bytes the destination "
